@@ -51,6 +51,9 @@ var yieldLog = os.Getenv("OXSIM_YLOG") != ""
 type spinState struct {
 	at int64
 	n  int
+	lastFire  int64 // simulated time of the last breaker firing
+	lastSleep int64
+	streak    int
 }
 
 type simGrpcServer struct{ port int }
@@ -149,9 +152,20 @@ func (w *World) yield(pc uintptr) {
 	}
 	if sp.n > 2000 {
 		sp.n = 0
+		// a goroutine that keeps spinning (e.g. the notification dispatcher polling an interval
+		// whose batches were all trimmed) is slowed down progressively, up to ~50 ms per round
+		if sp.lastSleep > 0 && now-sp.lastFire <= 2*sp.lastSleep {
+			if sp.streak < 10 {
+				sp.streak++
+			}
+		} else {
+			sp.streak = 0
+		}
+		d := 50 * time.Microsecond << sp.streak
+		sp.lastFire, sp.lastSleep = now, int64(d)
 		w.yieldMu.Unlock()
 		w.R.Count("spin_breaker", 1)
-		time.Sleep(50 * time.Microsecond)
+		time.Sleep(d)
 		w.yieldMu.Lock()
 	}
 	site, ok := w.siteCache[pc]
